@@ -45,13 +45,13 @@ _ALL = {
         technique="GCNF decision tables vs spec tables; constant-propagated dispatch; fact-walker dominance; path rules",
     ),
     "C02": dict(
-        want=["K1@factorize", "K2", "K6@factorize", "F1", "P7", "K4b", "P7b", "F1b"],
+        want=["K1@factorize", "K2", "K6@factorize", "F1", "P7", "K4b", "P7b", "F1b", "H2"],
         explanation=("Decides the structural part of faithful factorization: the null code -1 is produced for a null in ANY key "
                      "position and preserved by every code re-mapping (K2); every factorization route tests the key for null "
                      "before an ordering comparison decides its code or delegates to a library call documented to emit the "
                      "sentinel (F1); pointer tables are built against the final label index (P7); the counting sort and code "
                      "combination guard the null code (K1) and advance their row counter unconditionally (K6)."
-                     ' Also: identifier arrays never take their width from an input and counter tables handed to kernels are wide (K4b); the chunk-wise label union keeps first-appearance order and every pointer table is a get_indexer lookup (P7b); RangeIndex offsets are divided by the step unless it is exactly 1 (F1b).'),
+                     ' Also: identifier arrays never take their width from an input and counter tables handed to kernels are wide (K4b); the chunk-wise label union keeps first-appearance order and every pointer table is a get_indexer lookup (P7b); RangeIndex offsets are divided by the step unless it is exactly 1 (F1b); the counting sort behind `groups` uses prefix-sum group starts and writes every accepted row once at the position of its group (H2).'),
         not_decided=["that equal keys get equal codes and unequal keys different codes (delegated to pd.factorize / arrow "
                      "dictionary_encode / mixed-radix arithmetic incl. int64 overflow of the cartesian product)",
                      "ascending positions inside groups (counting-sort arithmetic)"],
@@ -124,7 +124,7 @@ _ALL = {
         technique="GCNF tables; loop-body obligations; path pairing rule",
     ),
     "C09": dict(
-        want=["K1@rolling", "K3@rolling", "K4@rolling", "K5", "D3", "P10", "P11b", "D3b"],
+        want=["K1@rolling", "K3@rolling", "K4@rolling", "K5", "D3", "P10", "P11b", "D3b", "W1", "W2"],
         explanation=("Decides the periphery of the rolling kernels, not the window arithmetic: null/mask guards (K1, K3); "
                      "counter width (K4); dtype provenance on selection paths so min/max/shift return input elements exactly "
                      "(K5); op -> kernel/flag dispatch and flag -> orientation (D3); restoration keeps the input's time unit (P10)."
@@ -162,7 +162,7 @@ _ALL = {
         technique="path pairing; table laws; dtype provenance",
     ),
     "C13": dict(
-        want=["S1", "S2", "S3", "S4", "K2", "M8", "S3b"],
+        want=["S1", "S2", "S3", "S4", "K2", "M8", "S3b", "H2"],
         explanation=("Decides history independence structurally: finite typestate interpretation of the key-representation "
                      "mutator from every state (S1); every consumer of global codes sees global codes (S2); every attribute "
                      "read by a method is initialised on every constructor path (S3); logical attributes are assigned only "
@@ -181,10 +181,10 @@ _ALL = {
         technique="link check; path rule; table; forwarding rule",
     ),
     "C15": dict(
-        want=["K4@rowsel", "K1@rowsel", "A1", "R1", "P17"],
+        want=["K4@rowsel", "K1@rowsel", "A1", "R1", "P17", "H1"],
         explanation=("Decides the stated failure modes: per-group row counters are wide enough (K4); null-key rows are never "
                      "selected (K1); selection inputs are validated against the keys (A1)."
-                     ' Also: the backward scan of tail is flipped back (R1); the selected columns are not stacked into one array (P17).'),
+                     ' Also: the backward scan of tail is flipped back (R1); the selected columns are not stacked into one array (P17); the occurrence counter of the scans is compared (== n / slot < n) before it is incremented, once per accepted row, and a negative n scans backwards with n := -n - 1 (H1).'),
         not_decided=["that the scan picks the n-th occurrence (seen[k] == n arithmetic)", "index restoration"],
         technique="allocation-width rule; fact walker; must-validate",
     ),
